@@ -138,8 +138,10 @@ def build_cases(tier):
     # fragment graphs whose alphabetical name order disagrees with the dependency order (class ordering in fragments.py)
     from mc import corpus2
     for names in itertools.permutations(("Alpha", "Beta", "Gamma")):
-        for g in corpus2.fragment_graphs(3, ("User", "Node") if tier != "quick" else ("User",), names=names):
-            if tier == "quick" and "root:one" not in g["tags"] and len(g["edges"]) < 2:
+        for g in corpus2.fragment_graphs(3, ("User", "Node") if tier != "quick" else ("User",), names=names, subsets=True):
+            if tier == "quick" and "root:one" not in g["tags"] and "root:subset" not in g["tags"] and len(g["edges"]) < 2:
+                continue
+            if not frag_doc_valid(g["doc_text"]):
                 continue
             add("frag_names", corpus.SCHEMA_K, g["doc_text"], tags={"fragment_graph", f"names:{'<'.join(names)}"} | g["tags"])
     # member names: Python keywords, pydantic BaseModel attributes (as written and in camelCase / PascalCase, which only collide
@@ -169,6 +171,14 @@ def build_cases(tier):
 
 
 from mc.corpus2 import name_catalogue  # noqa: E402
+
+
+def frag_doc_valid(doc_text):
+    from graphql import NoUnusedFragmentsRule, parse, specified_rules, validate
+    try:
+        return not validate(corpus.schema_k(), parse(doc_text), [r for r in specified_rules if r is not NoUnusedFragmentsRule])
+    except Exception:  # noqa
+        return False
 
 
 def evaluate(case):
